@@ -1083,4 +1083,180 @@ theorem run_append (s : State) (a b : List Op) :
   | nil => simp [run]
   | cons op a ih => simp only [List.cons_append, run, ih, List.cons_append]
 
+/-! ### what a step does to `locked`, `dead` and the channels of the pending requests
+(used by the connection-level invariant in `Lemmas/LockConn.lean`) -/
+
+/-- every channel of a pending request of `s'` is a channel of a pending request of `s` -/
+def ChanSub (s s' : State) : Prop :=
+  ∀ p req', (p, req') ∈ s'.reqs → ∃ p0 req, (p0, req) ∈ s.reqs ∧ req.ch = req'.ch
+
+theorem Sub.chanSub {s s' : State} (h : Sub s s') : ChanSub s s' := by
+  intro p req' hm
+  obtain ⟨req, hm0, hc, _⟩ := h.2 p req' hm
+  exact ⟨p, req, hm0, hc.symm⟩
+
+theorem acquire_spec {max : Nat} {s s' : State} {g : Option (Ch × Room)}
+    (hi : Inv max s) (ha : 0 < s.avail) (h : acquire s = (s', g)) :
+    s'.dead = s.dead ∧
+    (∀ r, r ∈ s'.locked → r ∈ s.locked ∨ ∃ ch, g = some (ch, r)) ∧
+    (∀ ch r, g = some (ch, r) → ∃ p req, (p, req) ∈ s.reqs ∧ req.ch = ch) := by
+  refine ⟨peerLoop_dead h, ?_, ?_⟩
+  · intro r hr
+    cases g with
+    | none => left; rw [← (peerLoop_none h).1]; exact hr
+    | some cr =>
+      obtain ⟨ch, r'⟩ := cr
+      obtain ⟨_, p2, _⟩ := peerLoop_some hi ha h
+      rw [p2] at hr
+      rcases List.mem_cons.mp hr with e | e
+      · right; exact ⟨ch, by rw [e]⟩
+      · left; exact e
+  · intro ch r hg
+    subst hg
+    obtain ⟨_, _, _, _, p, req, hm, hc, _⟩ := peerLoop_some hi ha h
+    exact ⟨p, req, hm, hc⟩
+
+theorem acquireN_spec2 {max : Nat} {n : Nat} {s s2 : State} {gs : List (Ch × Room)}
+    (hi : Inv max s) (hn : n ≤ s.avail) (h : acquireN n s = (s2, gs)) :
+    (∀ r, r ∈ s2.locked → r ∈ s.locked ∨ ∃ ch, (ch, r) ∈ gs) ∧
+    (∀ g ∈ gs, ∃ p req, (p, req) ∈ s.reqs ∧ req.ch = g.1) := by
+  induction n generalizing s gs with
+  | zero =>
+    simp only [acquireN, Prod.mk.injEq] at h
+    obtain ⟨h1, h2⟩ := h; subst h1 h2
+    exact ⟨fun r hr => Or.inl hr, by simp⟩
+  | succ n ih =>
+    simp only [acquireN] at h
+    generalize ha1 : acquire s = r1 at h
+    obtain ⟨s1, g⟩ := r1
+    generalize ha2 : acquireN n s1 = r2 at h
+    obtain ⟨s2', gs'⟩ := r2
+    simp only [Prod.mk.injEq] at h
+    obtain ⟨h1, h2⟩ := h; subst h1 h2
+    have hpos : 0 < s.avail := by omega
+    have hi1 := acquire_inv hi hpos ha1
+    have hs1 := acquire_sub hi hpos ha1
+    obtain ⟨_, q2, q3⟩ := acquire_spec hi hpos ha1
+    have hav : n ≤ s1.avail := by
+      cases g with
+      | none => rw [(peerLoop_none ha1).2]; omega
+      | some cr =>
+        obtain ⟨ch, r⟩ := cr
+        obtain ⟨_, _, p3, _⟩ := peerLoop_some hi hpos ha1
+        omega
+    obtain ⟨a, b⟩ := ih hi1 hav ha2
+    constructor
+    · intro r hr
+      rcases a r hr with e | ⟨ch, e⟩
+      · rcases q2 r e with e2 | ⟨ch, e2⟩
+        · exact Or.inl e2
+        · right; exact ⟨ch, by simp [e2]⟩
+      · right; exact ⟨ch, List.mem_append_right _ e⟩
+    · intro g' hg'
+      rcases List.mem_append.mp hg' with e | e
+      · cases g with
+        | none => simp at e
+        | some cr =>
+          simp only [Option.toList, List.mem_singleton] at e
+          subst e
+          exact q3 g'.1 g'.2 rfl
+      · obtain ⟨p, req, hm, hc⟩ := b g' e
+        obtain ⟨p0, req0, hm0, hc0⟩ := hs1.chanSub p req hm
+        exact ⟨p0, req0, hm0, hc0.trans hc⟩
+
+theorem requestPre_reqs {s : State} {p : Peer} {rooms : List Room} {ch : Ch} {q : Peer} {req : Req}
+    (h : (q, req) ∈ (requestPre s p rooms ch).reqs) :
+    req.ch = ch ∨ (q, req) ∈ s.reqs := by
+  unfold requestPre at h
+  split at h
+  · rcases List.mem_cons.mp h with e | e
+    · left; simp only [Prod.mk.injEq] at e; rw [e.2]
+    · right; exact (mem_erase.mp e).1
+  · rcases List.mem_cons.mp h with e | e
+    · left; simp only [Prod.mk.injEq] at e; rw [e.2]
+    · right; exact e
+
+/-- summary of one service step for the connection-level proofs -/
+theorem step_summary {max : Nat} {s : State} (hi : Inv max s) (op : Op) :
+    -- locked rooms afterwards were locked before or are granted now; an unlocked room is locked
+    -- afterwards only if granted again
+    (∀ r, r ∈ (step s op).1.locked → (r ∈ s.locked ∧ op ≠ .unlock r) ∨ ∃ ch, (ch, r) ∈ (step s op).2) ∧
+    -- a grant goes to the channel of a pending request (or of the request being made)
+    (∀ g ∈ (step s op).2, (∃ p req, (p, req) ∈ s.reqs ∧ req.ch = g.1) ∨ ∃ p rooms, op = .request p rooms g.1) ∧
+    -- channels of pending requests afterwards
+    (∀ p req', (p, req') ∈ (step s op).1.reqs →
+      (∃ p0 req, (p0, req) ∈ s.reqs ∧ req.ch = req'.ch) ∨ ∃ p rooms, op = .request p rooms req'.ch) ∧
+    -- dead receivers
+    ((step s op).1.dead = s.dead ∨ ∃ ch, op = .drop ch ∧ (step s op).1.dead = ch :: s.dead) := by
+  cases op with
+  | request p rooms ch =>
+    simp only [step]
+    have hpre := requestPre_inv hi p rooms ch
+    obtain ⟨_, hsub, hdead, _⟩ := acquireN_spec hpre (Nat.le_refl _) (rfl : acquireN _ _ = (_, _))
+    obtain ⟨a, b⟩ := acquireN_spec2 hpre (Nat.le_refl _) (rfl : acquireN _ _ = (_, _))
+    have hl := requestPre_locked s p rooms ch
+    refine ⟨?_, ?_, ?_, Or.inl (hdead.trans hl.2)⟩
+    · intro r hr
+      rcases a r hr with e | e
+      · left; exact ⟨hl.1 ▸ e, by simp⟩
+      · right; exact e
+    · intro g hg
+      obtain ⟨q, req, hm, hc⟩ := b g hg
+      rcases requestPre_reqs hm with e | e
+      · right; exact ⟨p, rooms, by rw [← hc, e]⟩
+      · left; exact ⟨q, req, e, hc⟩
+    · intro q req' hm
+      obtain ⟨q0, req0, hm0, hc0⟩ := hsub.chanSub q req' hm
+      rcases requestPre_reqs hm0 with e | e
+      · right; exact ⟨p, rooms, by rw [← hc0, e]⟩
+      · left; exact ⟨q0, req0, e, hc0⟩
+  | unlock r0 =>
+    simp only [step]
+    split
+    · rename_i hc
+      have hr0 : r0 ∈ s.locked := by simpa using hc
+      have h1 := unlockPre_inv hi hr0
+      have hpos := unlockPre_pos s r0
+      generalize ha : acquire (unlockPre s r0) = res
+      obtain ⟨s2, g⟩ := res
+      obtain ⟨q1, q2, q3⟩ := acquire_spec h1 hpos ha
+      have hsub := acquire_sub h1 hpos ha
+      refine ⟨?_, ?_, ?_, Or.inl (by simpa [unlockPre] using q1)⟩
+      · intro r hr
+        rcases q2 r hr with e | ⟨ch, e⟩
+        · left
+          simp only [unlockPre] at e
+          have hne : r ≠ r0 := by
+            intro heq; subst heq
+            exact (List.Nodup.not_mem_erase hi.lockedNodup) e
+          exact ⟨(List.mem_erase_of_ne hne).mp e, by simp; exact fun h => hne h.symm⟩
+        · right; exact ⟨ch, by simp [e]⟩
+      · intro g' hg'
+        cases g with
+        | none => simp at hg'
+        | some cr =>
+          simp only [Option.toList, List.mem_singleton] at hg'
+          subst hg'
+          left
+          obtain ⟨p, req, hm, hc⟩ := q3 g'.1 g'.2 rfl
+          exact ⟨p, req, by simpa [unlockPre] using hm, hc⟩
+      · intro q req' hm
+        left
+        obtain ⟨q0, req0, hm0, hc0⟩ := hsub.chanSub q req' hm
+        exact ⟨q0, req0, by simpa [unlockPre] using hm0, hc0⟩
+    · refine ⟨?_, by simp, ?_, Or.inl rfl⟩
+      · intro r hr
+        left
+        refine ⟨hr, ?_⟩
+        intro he
+        simp only [Op.unlock.injEq] at he
+        subst he
+        rename_i hc
+        exact hc (by simpa using hr)
+      · intro q req' hm; left; exact ⟨q, req', hm, rfl⟩
+  | drop ch =>
+    simp only [step]
+    refine ⟨fun r hr => Or.inl ⟨hr, by simp⟩, by simp, ?_, Or.inr ⟨ch, rfl, rfl⟩⟩
+    intro q req' hm; left; exact ⟨q, req', hm, rfl⟩
+
 end Discret.Lock
